@@ -115,11 +115,11 @@ class World:
                 return p
         return (0, 0)
 
-    def point_of_outputs(self, data):
+    def point_of_outputs(self, data, names=OUTS):
         for p in self.points:
             ref = self._out[p]
             try:
-                if all(np.array_equal(np.ravel(np.asarray(data[k])), ref[k]) for k in OUTS):
+                if all(np.array_equal(np.ravel(np.asarray(data[k])), ref[k]) for k in names):
                     return p
             except Exception:  # noqa: BLE001
                 return (0, 0)
@@ -153,15 +153,26 @@ KIND_TO_CACHE = {
 class Driver:
     """One real discipline with one cache policy, stepped by the labels of the specification."""
 
-    def __init__(self, world: World, kind, tol, inplace, workdir, tag, cells_init):
+    def __init__(self, world: World, kind, tol, inplace, workdir, tag, cells_init, reuse=None):
+        """reuse: the Driver of the previous path (same kind and tolerance).  Creating a full cache costs
+        15-35 ms (multiprocessing manager objects, HDF5 file singleton), so its cache object is emptied
+        with clear() and handed to the new discipline instead of building a new one for every path."""
         self.w = world
         self.kind = kind
         self.tol = tol
         self.d = CDisc(inplace)
         self.h5 = None
         if kind == "hdf5":
-            self.h5 = str(workdir / f"c05-{tag}.h5")
-        self._set_cache()
+            self.h5 = reuse.h5 if reuse is not None else str(workdir / f"c05-{tag}.h5")
+        if reuse is not None and reuse.d.cache is not None:
+            cache = reuse.d.cache
+            if len(cache):
+                cache.clear()
+            if len(cache):
+                raise RuntimeError("cache.clear() left entries behind")
+            self.d.cache = cache
+        else:
+            self._set_cache()
         self.cells = {c: array([world.xval(xi)]) for c, xi in cells_init.items()}
         self.cell_idx = dict(cells_init)
         self.diff = 0
@@ -187,7 +198,9 @@ class Driver:
 
     # ---- what the cache shows through its public API
     def entries(self):
-        if self.d.cache is None:
+        # get_all_entries() of an HDF5Cache without any entry trips an assertion of the file singleton
+        # (keep_open closes a file that was never opened): a cache API corner outside the statement
+        if self.d.cache is None or not len(self.d.cache):
             return []
         out = []
         for e in self.d.cache.get_all_entries():
@@ -232,7 +245,8 @@ class Driver:
         jac = self.d.linearize(inp, compute_all_jacobians=(mode == "all"), execute=ex)
         n_ran = len(self.d.run_log) - n0
         jl, jsrc = self.w.read_jacobian(jac)
-        src = self.w.point_of_outputs(self.d.io.data) if ex else (1, 0)
+        # after linearize() the self-coupled "s" of the local data is reset to its input value
+        src = self.w.point_of_outputs(self.d.io.data, ("y", "w")) if ex else (1, 0)
         ev = {"op": "lin", "c": c, "x": list(p), "hasOut": bool(ex), "src": list(src), "ran": n_ran > 0,
               "req": 3 if mode == "all" else self.diff, "jl": jl, "jsrc": list(jsrc),
               "lin": len(self.d.lin_log) > m0}
